@@ -217,10 +217,20 @@ class Gen:
     def op(self, sim):
         r = self.rng
         n = len(sim.t)
-        k = r.choice(['app', 'appp', 'appc', 'pre', 'prep', 'prec', 'spl', 'splp', 'trim', 'rev', 'up', 'down',
+        k = self.pick_op()
+        if n > 1500 and k in ('rev', 'trim') and r.random() < 0.9:
+            k = 'glen'      # the list-based model reverses in quadratic time; keep long reversals rare
+        return self.op_k(k, sim)
+
+    def pick_op(self):
+        return self.rng.choice(['app', 'appp', 'appc', 'pre', 'prep', 'prec', 'spl', 'splp', 'trim', 'rev', 'up', 'down',
                       'clr', 'spf', 'subp', 'cmp', 'cmpp', 'find', 'findp', 'idx', 'ridx', 'tonum', 'flt',
                       'glen', 'gsize', 'same', 'done', 're', 'onull', 'on', 'on', 'odup', 'odup', 'osub', 'osub',
                       'swap', 'app', 'appp', 'appc', 'pre', 'prep', 'prec', 'spl', 'splp', 'trim'])
+
+    def op_k(self, k, sim):
+        r = self.rng
+        n = len(sim.t)
         if k == 'app':
             if sim.o is not None:
                 sim.t = sim.t + sim.o
@@ -460,7 +470,8 @@ class C01(vlib.PropertyCheck):
             for pat in ['61', '6a20']:
                 t = '%s*%d' % (pat, n) if n else '-'
                 for c in ['fp', 'fpp', 'fdp', 'ptr']:
-                    hist.append('%s,%s appc,33 trim rev glen' % (c, t))
+                    tail = ' trim rev' if (n <= 1 or (n == 4097 and c == 'ptr' and pat == '6a20')) else ''
+                    hist.append('%s,%s appc,33%s glen' % (c, t, tail))
                 hist.append('fd,d%s:i:d%s appp,%s prec,35' % (t, t, t) if n else 'fd,i:e prec,35')
                 if n:
                     hist.append('fp,%s' % hx(expand(t) + [0x0a, 0x62]) if n < 200 else 'fp,%s appc,10' % t)
